@@ -22,12 +22,21 @@ Definition mt_m : nat := 397.
 Definition matrix_a : N := 2567483615.            (* 0x9908b0df *)
 Definition msb : N := 2147483648.                 (* 0x80000000 *)
 Definition lsbs : N := 2147483647.                (* 0x7fffffff *)
+Definition mt_default_seed : N := 5489.           (* mt19937() { seed(5489); } *)
+Definition mt_init_mult : N := 1812433253.
+Definition mt_init_shift : N := 30.
+Definition temper_u : N := 11.
+Definition temper_s : N := 7.
+Definition temper_b : N := 2636928640.            (* 0x9d2c5680 *)
+Definition temper_t : N := 15.
+Definition temper_c : N := 4022730752.            (* 0xefc60000 *)
+Definition temper_l : N := 18.
 
 Record mt := mk_mt { mt_st : list N; mt_ctr : nat }.
 
 (* _st[_ctr] = (1812433253 * (_st[_ctr-1] ^ (_st[_ctr-1] >> 30)) + _ctr)   in uint32_t *)
 Definition seed_next (prev : N) (i : nat) : N :=
-  t32 (1812433253 * (N.lxor prev (N.shiftr prev 30)) + N.of_nat i).
+  t32 (mt_init_mult * (N.lxor prev (N.shiftr prev mt_init_shift)) + N.of_nat i).
 
 (* seed(s): _st[0] = s; for (_ctr = 1; _ctr < n; _ctr++) _st[_ctr] = ...;  leaves _ctr = n.
    The state before seed() is irrelevant: every word is written before it is read. *)
@@ -53,10 +62,10 @@ Definition mt_regen (st : list N) : list N :=
   regen_step st2 (mt_n - 1) (mt_m - 1) 0.
 
 Definition temper (r0 : N) : N :=
-  let r1 := N.lxor r0 (N.shiftr r0 11) in
-  let r2 := N.lxor r1 (N.land (t32 (N.shiftl r1 7)) 2636928640) in     (* 0x9d2c5680 *)
-  let r3 := N.lxor r2 (N.land (t32 (N.shiftl r2 15)) 4022730752) in    (* 0xefc60000 *)
-  N.lxor r3 (N.shiftr r3 18).
+  let r1 := N.lxor r0 (N.shiftr r0 temper_u) in
+  let r2 := N.lxor r1 (N.land (t32 (N.shiftl r1 temper_s)) temper_b) in
+  let r3 := N.lxor r2 (N.land (t32 (N.shiftl r2 temper_t)) temper_c) in
+  N.lxor r3 (N.shiftr r3 temper_l).
 
 Definition mt_next (g : mt) : mt * N :=
   let g1 := if (mt_n <=? mt_ctr g)%nat then mk_mt (mt_regen (mt_st g)) 0 else g in
@@ -71,14 +80,18 @@ Fixpoint mt_outputs (k : nat) (g : mt) : list N :=
 (* ---- pcg_basic32 -------------------------------------------------------------------------- *)
 Record pcg := mk_pcg { pcg_state : N; pcg_inc : N }.
 Definition pcg_mult : N := 6364136223846793005.
+Definition pcg_sh_a : N := 18.
+Definition pcg_sh_b : N := 27.
+Definition pcg_sh_rot : N := 59.
+Definition pcg_rot_mask : N := 31.
 
 (* (xorshifted >> rot) | (xorshifted << ((-rot) & 31))   in uint32_t *)
 Definition rotr_expr (x rot : N) : N :=
-  N.lor (N.shiftr x rot) (t32 (N.shiftl x (N.land (t32 (4294967296 - rot)) 31))).
+  N.lor (N.shiftr x rot) (t32 (N.shiftl x (N.land (t32 (4294967296 - rot)) pcg_rot_mask))).
 
 Definition pcg_output (old : N) : N :=
-  let xorshifted := t32 (N.shiftr (N.lxor (N.shiftr old 18) old) 27) in
-  let rot := t32 (N.shiftr old 59) in
+  let xorshifted := t32 (N.shiftr (N.lxor (N.shiftr old pcg_sh_a) old) pcg_sh_b) in
+  let rot := t32 (N.shiftr old pcg_sh_rot) in
   rotr_expr xorshifted rot.
 
 Definition pcg_next (g : pcg) : pcg * N :=
